@@ -401,7 +401,15 @@ func (c *CCtx) ident(name string) CVal {
 		}
 		return CVal{T: fmt.Sprintf("(+ %s 1)", p), Sort: "Int"}
 	}
-	if c.header != nil {
+	isParam := false
+	if c.fn != nil {
+		for _, p := range c.fn.Params {
+			if p.Name() == name {
+				isParam = true
+			}
+		}
+	}
+	if c.header != nil && !(c.old && isParam) { // old(p) of a reassigned parameter p is its value at entry, also inside a loop
 		for _, ins := range c.header.Instrs {
 			phi, ok := ins.(*ssa.Phi)
 			if !ok {
